@@ -69,6 +69,19 @@ def run(ctx):
         """optionally hand the function a row SELECTION (a view: nothing materialises it before the call)"""
         sel = c.get("select")
         if not sel:
+            how = (sum(map(len, rows)) + len(rows)) % 7
+            if how == 0 and len(rows) >= 1:
+                # the collection handed over as a Python list of encoded rows (empty rows among them), as iterating another collection gives
+                ctx.count("collections_given_as_lists_of_encoded_rows")
+                return bnp.as_encoded_array([seqs[i] for i in range(len(rows))]), rows
+            if how == 1:
+                # ... or after a trip through pickle / deepcopy (a worker process, a cache)
+                import copy as _copy, pickle as _pickle
+                ctx.count("collections_pickled_or_deepcopied")
+                try:
+                    return (_pickle.loads(_pickle.dumps(seqs)) if len(rows) % 2 else _copy.deepcopy(seqs)), rows
+                except Exception:
+                    return seqs, rows
             return seqs, rows
         if sel[0] == "fancy":
             return seqs[np.array(sel[1], dtype=int)], [rows[i] for i in sel[1]]
@@ -118,7 +131,7 @@ def run(ctx):
         ename, rows, k = c["enc"], c["rows"], c["k"]
         alphabet = ALPHABETS[ename]
         enc = encs[ename]
-        seqs = bnp.as_encoded_array(rows, enc)
+        seqs = bnp.as_encoded_array(rows, enc) if not c.get("ascii") else bnp.as_encoded_array(rows)       # plain text reads (base encoding) are accepted for DNA
         seqs, rows = selected(seqs, rows, c)
         res = bnp.get_kmers(seqs, k)
         sanitize(res, "get_kmers", c)
@@ -175,7 +188,7 @@ def run(ctx):
         alphabet = ALPHABETS[ename]
         if len(alphabet) ** k > 5000:
             return
-        seqs = bnp.as_encoded_array(rows, encs[ename])
+        seqs = bnp.as_encoded_array(rows, encs[ename]) if not c.get("ascii") else bnp.as_encoded_array(rows)
         seqs, rows = selected(seqs, rows, c)
         res = count_kmers(seqs, k)
         exp = Counter(w for r in rows for w in windows(r, k))
@@ -369,9 +382,9 @@ def run(ctx):
         rows = gen_rows(rng, alphabet, w)
         kind = rng.random()
         if kind < 0.3:
-            ctx.run_case(case_kmers, {"fn": "get_kmers", "enc": ename, "rows": rows, "k": w, "select": gen_select(rows, w)})
+            ctx.run_case(case_kmers, {"fn": "get_kmers", "enc": ename, "rows": rows, "k": w, "select": gen_select(rows, w), "ascii": ename == "ACGTEncoding" and rng.random() < 0.4})
         elif kind < 0.4:
-            ctx.run_case(case_count, {"fn": "count_kmers", "enc": ename, "rows": rows, "k": min(w, 5), "select": gen_select(rows, w)})
+            ctx.run_case(case_count, {"fn": "count_kmers", "enc": ename, "rows": rows, "k": min(w, 5), "select": gen_select(rows, w), "ascii": ename == "ACGTEncoding" and rng.random() < 0.4})
         elif kind < 0.6:
             k = rng.randint(1, w)
             ctx.run_case(case_minimizers, {"fn": "get_minimizers", "enc": ename, "rows": rows, "k": k, "w": w, "select": gen_select(rows, w)})
